@@ -125,9 +125,11 @@ def run_case(contract, case, known_classes_disabled=False):
     records = ex.explore(lambda h: contract.body(h, *case), mk)
     n_paths = 0
     for h, err in records:
-        if err is not None and err[0] == 'infeasible':
-            continue
-        n_paths += 1
+        infeasible = err is not None and err[0] == 'infeasible'
+        if infeasible:
+            err = None
+        else:
+            n_paths += 1
         if err is not None:
             out['errors'].append({'kind': err[0], 'msg': err[1][:2000]})
         if h is None:
@@ -182,12 +184,44 @@ def replay_model(contract, case, r, h_sym):
         try:
             contract.body(hc, *case)
         except ReplayImpossible as e:
+            found = witness_search(contract, case)
+            if found is not None:
+                return found
             return {'status': 'not-replayable', 'why': str(e)}
         failed = [n for (n, ok, d) in hc.results if not ok]
-        return {'status': 'reproduced' if r.name in failed else 'not-reproduced', 'inputs': _jsonable(hc.record),
-                'failed_natively': failed, 'notes': hc.notes[:5]}
+        if r.name in failed or failed:
+            return {'status': 'reproduced', 'inputs': _jsonable(hc.record), 'failed_natively': failed,
+                    'notes': hc.notes[:5]}
+        # the counter-model refutes an intermediate obligation (e.g. a loop invariant) or uses an abstraction:
+        # search for an end-to-end failing input of the same contract natively (bounded, seeded)
+        found = witness_search(contract, case)
+        if found is not None:
+            return found
+        return {'status': 'not-reproduced', 'inputs': _jsonable(hc.record), 'failed_natively': failed,
+                'notes': hc.notes[:5]}
     except Exception as e:
         return {'status': 'replay-error', 'why': f'{type(e).__name__}: {e}', 'tb': traceback.format_exc()[-1500:]}
+
+
+def witness_search(contract, case, tries=400, seconds=8.0):
+    import random
+    seed = int(os.environ.get('VERIF_SEED', '0') or 0)
+    t0 = time.time()
+    for i in range(tries):
+        if time.time() - t0 > seconds:
+            break
+        hc = Harness(None, rng=random.Random(seed * 100003 + i))
+        try:
+            contract.body(hc, *case)
+        except ReplayImpossible:
+            continue
+        except Exception:
+            continue
+        failed = [n for (n, ok, d) in hc.results if not ok]
+        if failed:
+            return {'status': 'reproduced', 'inputs': _jsonable(hc.record), 'failed_natively': failed,
+                    'notes': [f'witness found by seeded native search (try {i})']}
+    return None
 
 
 class _ModelView:
